@@ -136,6 +136,7 @@ template <typename To, typename From>
 NOINL void convert(Ctx const& c, char const* op, std::uint64_t salt)
 {
     static_assert(std::is_constructible_v<To, From const&>);
+    begin(c, "setup:extents(OtherIndexTypes...):N=rank_dynamic");
     From f = make_extents<From>(c.shape);
     begin(c, op);
     To t(f);
@@ -327,6 +328,7 @@ void run_case(vf::Case& c)
     x.h          = vf::mix(hash_arr(x.shape, x.p->rank, (VF_PLO + k * VF_PSTEP) * 131 + 17), x.group);
     x.nontrivial = x.p->rank > 0;
     if (vf::want_sample("shape")) { vf::sample("shape", "extents<%s,%s> shape %s group %u", IDXN, x.p->name, x.desc.c_str(), x.group); }
+    begin(x, "setup:extents(OtherIndexTypes...):N=rank_dynamic"); // any fault before the first operation's own breadcrumb is the basic constructor's
     dispatch<Run>(k, x);
 }
 } // namespace
